@@ -12,12 +12,19 @@ package fasthttp
 //    (ByteClassTrace) accepts a line only if  \A b : table[b] = Pred(b)  etc.
 
 import (
+	"bufio"
 	"bytes"
 	"encoding/json"
 	"fmt"
+	"go/ast"
+	"go/parser"
+	"go/token"
 	"html"
+	"math/rand"
 	"net/textproto"
 	"os"
+	"strconv"
+	"strings"
 	"testing"
 )
 
@@ -330,7 +337,246 @@ func TestVerifC32Dump(t *testing.T) {
 		tw.Emit(vfRec{"ev": "html", "s": c32Ints(x), "out": c32Ints(AppendHTMLEscape(nil, string(x)))})
 		nobs += 2
 	}
+	nobs += c32LowerStrings(tw, &nexec)
+	nobs += c32HeaderNames(t, tw, rng, &nexec)
 	tw.Close()
 	vfStat(nobs, nobs, vfRec{"trace_file": os.Getenv("VERIF_WORK") + "/" + name, "trace_executions": nexec})
 	vfDone()
+}
+
+// c32LowerStrings: lower-casing is defined on byte STRINGS: every byte value at every
+// position of strings of every length 1..24 (two families: the same byte everywhere, and a
+// sliding pattern so that neighbours differ), through lowercaseBytes and through the URI
+// host setters. The observations are validated by TLC (ev "lower").
+func c32LowerStrings(tw *vfTraceWriter, nexec *int) int {
+	n := 0
+	emit := func(via string, s, out []byte) {
+		if n%400 == 0 {
+			tw.Emit(vfRec{"ev": "init"})
+			*nexec++
+		}
+		tw.Emit(vfRec{"ev": "lower", "via": via, "s": c32Ints(s), "out": c32Ints(out)})
+		n++
+	}
+	for l := 1; l <= 24; l++ {
+		for b := 0; b < 256; b++ {
+			for fam := 0; fam < 2; fam++ {
+				s := make([]byte, l)
+				for i := range s {
+					if fam == 0 {
+						s[i] = byte(b)
+					} else {
+						s[i] = byte(b + 37*i)
+					}
+				}
+				out := append([]byte(nil), s...)
+				lowercaseBytes(out)
+				var u URI
+				u.SetHostBytes(s)
+				if !bytes.Equal(u.Host(), out) {
+					emit("URI.SetHostBytes", s, append([]byte(nil), u.Host()...))
+				}
+				var u2 URI
+				u2.SetHost(string(s))
+				if !bytes.Equal(u2.Host(), out) {
+					emit("URI.SetHost", s, append([]byte(nil), u2.Host()...))
+				}
+				var u3 URI
+				u3.SetSchemeBytes(s)
+				if !bytes.Equal(u3.scheme, out) {
+					emit("URI.SetSchemeBytes", s, append([]byte(nil), u3.scheme...))
+				}
+				emit("lowercaseBytes", s, out)
+			}
+		}
+	}
+	// through URI.Parse: hosts made of letters, digits, dots and bytes >= 0x80
+	const hostAlpha = "aZmQ09.-\x80\xc1\xc9\xda\xe1\xff"
+	for l := 1; l <= 24; l++ {
+		for o := 0; o < len(hostAlpha); o++ {
+			h := make([]byte, l)
+			for i := range h {
+				h[i] = hostAlpha[(o+i*5)%len(hostAlpha)]
+			}
+			var u URI
+			if err := u.Parse(nil, append(append([]byte("HTTP://"), h...), "/p"...)); err != nil {
+				continue
+			}
+			emit("URI.Parse", h, append([]byte(nil), u.Host()...))
+		}
+	}
+	return n
+}
+
+// c32HeaderConsts lists the exported Header* name constants of the package (headers.go).
+func c32HeaderConsts(t *testing.T) []string {
+	fset := token.NewFileSet()
+	f, err := parser.ParseFile(fset, "headers.go", nil, 0)
+	if err != nil {
+		t.Fatalf("cannot parse headers.go: %v", err)
+	}
+	var names []string
+	for _, d := range f.Decls {
+		gd, ok := d.(*ast.GenDecl)
+		if !ok || gd.Tok != token.CONST {
+			continue
+		}
+		for _, sp := range gd.Specs {
+			vs := sp.(*ast.ValueSpec)
+			for i, id := range vs.Names {
+				if !strings.HasPrefix(id.Name, "Header") || i >= len(vs.Values) {
+					continue
+				}
+				if lit, ok := vs.Values[i].(*ast.BasicLit); ok && lit.Kind == token.STRING {
+					if v, err := strconv.Unquote(lit.Value); err == nil && v != "" {
+						names = append(names, v)
+					}
+				}
+			}
+		}
+	}
+	if len(names) < 40 {
+		t.Fatalf("only %d Header* constants found in headers.go", len(names))
+	}
+	return names
+}
+
+// c32HeaderNames: the canonical form of every exported Header* name, spelled in several
+// letter cases, as produced by EVERY entry point of the header API (string-keyed and
+// []byte-keyed Set/Add on both header types, AppendNormalizedHeaderKey(+Bytes), reading
+// the name from the wire). Each observed stored form is validated by TLC against Canon
+// (ev "canon"); the entry points must also agree with each other: what one stored, Peek and
+// Del through the other kind of key must find.
+func c32HeaderNames(t *testing.T, tw *vfTraceWriter, rng *rand.Rand, nexec *int) int {
+	n := 0
+	emit := func(via string, s, out []byte) {
+		if n%400 == 0 {
+			tw.Emit(vfRec{"ev": "init"})
+			*nexec++
+		}
+		tw.Emit(vfRec{"ev": "canon", "via": via, "s": c32Ints(s), "out": c32Ints(out)})
+		n++
+	}
+	stored := func(all func(func(k, v []byte)), name string) []byte {
+		var got []byte
+		all(func(k, v []byte) {
+			if got == nil && strings.EqualFold(string(k), name) {
+				got = append([]byte(nil), k...)
+			}
+		})
+		return got
+	}
+	for _, c := range c32HeaderConsts(t) {
+		mixed := []byte(c)
+		for i := range mixed {
+			if rng.Intn(2) == 0 {
+				mixed[i] ^= 0x20 * c32b2i8('a' <= mixed[i]|0x20 && mixed[i]|0x20 <= 'z')
+			}
+		}
+		for _, name := range []string{c, strings.ToLower(c), strings.ToUpper(c), string(mixed)} {
+			in := []byte(name)
+			seen := map[string]string{} // observed stored form -> first entry point
+			obs := func(via string, out []byte) {
+				if out == nil {
+					return // the header type manages this name itself and stores nothing
+				}
+				if _, dup := seen[string(out)]; !dup {
+					seen[string(out)] = via
+					emit(via, in, out)
+				}
+			}
+			obs("AppendNormalizedHeaderKey", AppendNormalizedHeaderKey(nil, name))
+			obs("AppendNormalizedHeaderKeyBytes", AppendNormalizedHeaderKeyBytes(nil, in))
+			val := "1"
+			for kind := 0; kind < 2; kind++ {
+				for ep := 0; ep < 6; ep++ {
+					var req RequestHeader
+					var resp ResponseHeader
+					var h interface {
+						Set(k, v string)
+						Add(k, v string)
+						SetBytesK(k []byte, v string)
+						SetBytesKV(k, v []byte)
+						AddBytesK(k []byte, v string)
+						AddBytesKV(k, v []byte)
+						Peek(k string) []byte
+						PeekBytes(k []byte) []byte
+						Del(k string)
+						DelBytes(k []byte)
+						VisitAll(func(k, v []byte))
+					} = &req
+					who := "RequestHeader."
+					if kind == 1 {
+						h = &resp
+						who = "ResponseHeader."
+					}
+					via := who + [6]string{"Set", "Add", "SetBytesK", "SetBytesKV", "AddBytesK", "AddBytesKV"}[ep]
+					switch ep {
+					case 0:
+						h.Set(name, val)
+					case 1:
+						h.Add(name, val)
+					case 2:
+						h.SetBytesK(append([]byte(nil), in...), val)
+					case 3:
+						h.SetBytesKV(append([]byte(nil), in...), []byte(val))
+					case 4:
+						h.AddBytesK(append([]byte(nil), in...), val)
+					default:
+						h.AddBytesKV(append([]byte(nil), in...), []byte(val))
+					}
+					k := stored(h.VisitAll, name)
+					obs(via, k)
+					if k == nil {
+						continue
+					}
+					// agreement between the entry points: found and deleted through BOTH kinds of key
+					if string(h.Peek(name)) != val || string(h.PeekBytes(append([]byte(nil), in...))) != val {
+						vfViol(fmt.Sprintf("canon:agree:%s:%q", via, name),
+							fmt.Sprintf("%s(%q, %q) stored the field as %q, but Peek(%q)=%q PeekBytes=%q", via, name, val, k, name, h.Peek(name), h.PeekBytes(in)),
+							vfRec{"name": name, "via": via, "stored": string(k)})
+						continue
+					}
+					if ep%2 == 0 {
+						h.DelBytes(append([]byte(nil), in...))
+					} else {
+						h.Del(name)
+					}
+					if left := stored(h.VisitAll, name); left != nil && !(kind == 1 && strings.EqualFold(name, HeaderContentType)) {
+						vfViol(fmt.Sprintf("canon:agree-del:%s:%q", via, name),
+							fmt.Sprintf("%s(%q) stored %q; Del through the other kind of key left %q", via, name, k, left),
+							vfRec{"name": name, "via": via, "stored": string(k)})
+					}
+				}
+				// the name read from the wire
+				if kind == 0 {
+					var req RequestHeader
+					wire := "GET / HTTP/1.1\r\nHost: x\r\n" + name + ": 1\r\n\r\n"
+					if strings.EqualFold(name, "Host") {
+						wire = "GET / HTTP/1.1\r\n" + name + ": 1\r\n\r\n"
+					}
+					if err := req.Read(bufio.NewReader(strings.NewReader(wire))); err == nil {
+						obs("RequestHeader.Read", stored(req.VisitAll, name))
+					}
+				} else {
+					var resp ResponseHeader
+					wire := "HTTP/1.1 200 OK\r\nContent-Length: 0\r\n" + name + ": 1\r\n\r\n"
+					if strings.EqualFold(name, "Content-Length") {
+						wire = "HTTP/1.1 200 OK\r\n" + name + ": 1\r\n\r\n"
+					}
+					if err := resp.Read(bufio.NewReader(strings.NewReader(wire))); err == nil {
+						obs("ResponseHeader.Read", stored(resp.VisitAll, name))
+					}
+				}
+			}
+		}
+	}
+	return n
+}
+
+func c32b2i8(v bool) byte {
+	if v {
+		return 1
+	}
+	return 0
 }
